@@ -84,11 +84,11 @@ def run_case(desc):
     cc = np.asarray(conv.get_cell(), float)
     cf = sc.frac_of(conv)
     cn = conv.get_atomic_numbers()
-    d3 = spglib.get_symmetry_dataset((cc, cf, cn), symprec=sc.TOL)
+    d3 = spglib.get_symmetry_dataset((cc, cf, cn), symprec=c.otol)
     if d3 is None or int(d3.number) != c.sg:
         out.fail("returned-structure-group", "independent symmetry search on the returned structure gives %s, input has %d" % (getattr(d3, "number", None), c.sg))
     # (b) standardised lattice
-    dsi = gx.spglib_group(c.cell, c.pos, c.nums, sc.TOL)
+    dsi = gx.spglib_group(c.cell, c.pos, c.nums, c.otol)
     p0, p1 = cellpar(dsi.std_lattice), cellpar(cc)
     if np.abs(p0 - p1).max() > 1e-5 * max(1.0, p0.max()):
         out.fail("standardized-lattice", "cell parameters %s, spglib std_lattice %s" % (np.round(p1, 6).tolist(), np.round(p0, 6).tolist()))
